@@ -319,6 +319,12 @@ theorem booted_preserved (m : MMachine σ α β) : Preserved m (fun r => r.boote
   drop := fun _ _ h => h
   over := fun _ h => h
 
+theorem phases_emit1 (m : MMachine σ α β) (cfg : Sources α) (rec) (r : MSt σ α β) (x : Notif β) :
+    phases m cfg rec [fun s => (s, [.emit x])] r = r.emit m x := rfl
+
+theorem phases_st (m : MMachine σ α β) (cfg : Sources α) (rec) (r : MSt σ α β) (f : σ → σ) :
+    phases m cfg rec [fun s => (f s, [])] r = { r with st := f r.st } := rfl
+
 theorem phasesAt_depth (m : MMachine σ α β) (cfg : Sources α) :
     phasesAt m cfg (depth cfg) = phases m cfg (phasesAt m cfg cfg.n) := rfl
 
